@@ -596,3 +596,77 @@ def histories(rng, quick):
             steps = [a, a, b, b, c, a, a] if s != "bayesian_opt" else [a, b, a, a]
             out[s].append({"solver": s, "history": steps, "family": "history"})
     return out
+
+
+# =============================================================================== 6. presentation diversity (round 3)
+# The structural cases of the other generators, with the SAME problem handed over in another legal presentation.  Pure data:
+# checks/C19.py (_call, judge_present) builds the objects once per case, calls the solver twice on them and compares typed
+# deep snapshots of everything the caller owns before / after each call.
+NBR_KINDS = ("plist", "plist", "plist", "ptuple", "gen", "iter", "map", "zip", "items", "list")
+LABEL_KINDS = ("asis", "asis", "none", "str", "fset", "typed", "nested")
+VALUE_REPS = ("str", "fset", "float", "nested", "bool01")
+_MID_BASE = {"anneal": dict(K=40, mi=120), "tabu_search": dict(K=40, mi=40), "lns": dict(K=40, mi=120), "alns": dict(K=40, mi=120),
+             "evolve": dict(K=40, mi=8, pop=12), "differential_evolution": dict(n=4, mi=8), "particle_swarm": dict(n=4, mi=8),
+             "nelder_mead": dict(n=4, mi=40), "bayesian_opt": dict(n=2, mi=8), "powell": dict(n=3, mi=3),
+             "bfgs": dict(n=4, mi=8), "lbfgs": dict(n=4, mi=8)}
+
+
+def mid_size(rng, s, count):
+    return [MAKE[s](rng, **_MID_BASE[s]) for _ in range(count)]
+
+
+def present_of(rng, case, none_states=False):
+    """A copy of `case` with its presentation drawn afresh:
+      discrete solvers   solution objects persistent and owned by the callbacks ('cached') / fresh lists / unusual values
+                         ("" frozenset() 0.0 False for state 0, strings, frozensets, a pair whose first entry is a state,
+                         True == 1; None as a state only with none_states)
+      tabu_search        neighbourhood served from a persistent table (`lambda s: table[s]`: list / tuple), as generator / iter /
+                         map / zip objects over it, as the items view of a persistent dict; move labels None / "" / str /
+                         frozenset / equal-but-differently-typed numbers / nested pairs
+      lns, alns          destroy hands out persistent partial-solution objects; operator and weight containers list / tuple
+      evolve             population list / tuple; crossover / mutate hand back persistent objects (cached) or a parent itself
+      continuous         bounds as list / tuple of (lo, hi) tuples / [lo, hi] lists; x0 and initial rows list / tuple; the
+                         initial population / swarm as list / tuple; gradient results list / tuple / the callback's own buffer"""
+    import copy
+    c = copy.deepcopy(case)
+    for k in ("plant", "seedless", "runs", "bare"):
+        c.pop(k, None)
+    s = c["solver"]
+    p = {"round": 3}
+    if s in DISCRETE:
+        reps = ("cached", "cached", "list", "int", "tuple") + VALUE_REPS + (("none0", "none0") if none_states else ())
+        c["rep"] = rng.choice(reps)
+    if s == "tabu_search":
+        p["nbr"] = rng.choice(NBR_KINDS)
+        p["label"] = rng.choice(LABEL_KINDS)
+    elif s == "lns":
+        c["destroy"] = rng.choice(("cached", "cached", "same", "copy"))
+        if c["destroy"] == "cached" and c.get("repair") == "inplace":
+            c["repair"] = "script"
+    elif s == "alns":
+        p["partial"] = rng.choice(("cached", "cached", "fresh"))
+        p["ops"] = rng.choice(("list", "tuple"))
+        if "destroy_weights" not in c["cfg"] and rng.random() < 0.5:
+            c["cfg"]["destroy_weights"] = [rng.choice((0.1, 1.0, 5.0)) for _ in c["destroy_ops"]]
+            c["cfg"]["repair_weights"] = [rng.choice((0.1, 1.0, 5.0)) for _ in c["repair_ops"]]
+        p["weights"] = rng.choice(("list", "tuple"))
+    elif s == "evolve":
+        p["pop"] = rng.choice(("list", "tuple"))
+    if s in ("differential_evolution", "particle_swarm", "bayesian_opt", "powell"):
+        p["bounds"] = rng.choice(("list", "tuple"))
+        p["pair"] = rng.choice(("tuple", "list"))
+    if s in ("differential_evolution", "particle_swarm"):
+        p["rows"] = rng.choice(("list", "tuple"))
+        c["tuples"] = rng.random() < 0.5
+        if not c.get("initial") and rng.random() < 0.6:
+            size = c["cfg"].get("population_size", c["cfg"].get("n_particles", 4))
+            c["initial"] = {"gen": rng.randrange(10 ** 6), "count": rng.randint(1, max(1, min(size, 6))), "outside": rng.choice((0, 0, 4))}
+    if s == "nelder_mead":
+        c["tuples"] = rng.random() < 0.5
+    if s in ("powell", "bfgs", "lbfgs"):
+        p["x0"] = rng.choice(("list", "tuple"))
+    if s in ("bfgs", "lbfgs"):
+        p["grad"] = rng.choice(("list", "tuple", "buffer", "buffer"))
+    c["present"] = p
+    c["family"] = "presentation"
+    return _legal(s, c) if isinstance(c.get("initial"), dict) else c
